@@ -656,7 +656,7 @@ def check_C07(rep, fl):
     # --- R07.6 per victim bookkeeping -------------------------------------------------------------
     for bi, t in rems:
         a = [norm(x) for x in body.call_args(t)]
-        rep.check(a[0] == costs and a[1] == V(mv["key"]), "R07.6", fl, body, "remove(min_key)", "the removed key is the sampled minimum",
+        rep.check(a[0] == costs and is_role(mv, "key", a[1]), "R07.6", fl, body, "remove(min_key)", "the removed key is the sampled minimum",
                   "costs.remove is applied to %s, not to the sampled minimum %s" % (show(a[1]), mv["key"]), loc=t["sp"])
     pushes = [(b, t) for b, t in calls_to(body, "Vec::push")]
     okp = False
@@ -664,7 +664,7 @@ def check_C07(rep, fl):
         a = [norm(x) for x in body.call_args(t)]
         if a[0][0] == "var" and is_call(a[1], "PolicyPair::new"):
             pa = a[1][2]
-            okp = pa[0] == V(mv["key"]) and pa[1] == V(mv["cost"])
+            okp = is_role(mv, "key", pa[0]) and is_role(mv, "cost", pa[1])
             rep.check(okp, "R07.6", fl, body, "victims.push", "victims.push(PolicyPair(min_key, min_cost))",
                       "the victim record is (%s, %s), not (min_key, min_cost) of the selected candidate" % (show(pa[0]), show(pa[1])), loc=t["sp"])
             # pushed exactly when removed: same straight-line region
@@ -678,10 +678,15 @@ def check_C07(rep, fl):
     oki = False
     for b, t in idxm:
         a = [norm(x) for x in body.call_args(t)]
-        if a[1] == V(mv["id"]):
+        if is_role(mv, "id", a[1]):
             oki = True
     rep.check(oki, "R07.6", fl, body, "sample[min_id]", "the chosen candidate is taken out of the sample (sample[min_id] overwritten, tail drained)",
               "the chosen candidate is not removed from the sample: it can be selected (and reported) again")
+
+
+def is_role(mv, role, e):
+    """Is expression e the variable that plays `role` in the minimum search (or the caller's copy of it)?"""
+    return e in (V(mv[role]), V(mv.get("inner", mv)[role]))
 
 
 def loop_of(body, bi):
@@ -735,6 +740,17 @@ def min_vars(body):
             else:
                 res["id"] = name
         if all(k in res for k in ("hits", "key", "cost", "id")):
+            # when the search lives in a helper that returns (key, hits, id, cost), the caller's
+            # variables are copies of the helper's: after the loop the rules speak about the copies
+            res["inner"] = {k: res[k] for k in ("hits", "key", "cost", "id")}
+            for role in ("hits", "key", "cost", "id"):
+                inner_v = V(res[role])
+                for l, name in body.local_name.items():
+                    if name == res[role]:
+                        continue
+                    ds = body.defs.get(l, [])
+                    if len(ds) == 1 and ds[0][0] not in inner and norm(body.def_expr(ds[0][0], ds[0][1], True)) == inner_v:
+                        res[role] = name
             return res
     return None
 
@@ -785,7 +801,8 @@ def check_min_search(rep, fl, body, costs):
     elem_key = ea[1]
     rep.check(elem_key[0] == "field" and elem_key[2] == "key", "R07.4", fl, body, "estimate(pair.key)", "popularity is estimated for the candidate's key", "estimate is applied to %s" % show(elem_key))
     hits_tgt = place_target(body, et["dest"])
-    want = ("atom", ("bin", "Lt", hits_tgt, V(mv["hits"])))
+    inner = mv["inner"]
+    want = ("atom", ("bin", "Lt", hits_tgt, V(inner["hits"])))
     pair = elem_key[1]
     for name, (cbi, si, e) in sorted(mv["writes"].items()):
         ok = all(feval(want, s) is True for s in entry.get(cbi, set()))
@@ -793,14 +810,14 @@ def check_min_search(rep, fl, body, costs):
                   "%s is overwritten on a path where `hits < min_hits` does not hold: the selected victim is not the least popular candidate" % name,
                   loc=body.blocks[cbi]["stmts"][si]["sp"])
         # value provenance: from the same element
-        if name == mv["hits"]:
+        if name == inner["hits"]:
             okv = e == norm(body.expand(hits_tgt)) or e == hits_tgt or is_call(e, "TinyLFU::estimate") or is_call(norm(body.expand(e)), "TinyLFU::estimate")
-        elif name == mv["key"]:
+        elif name == inner["key"]:
             okv = e == ("field", pair, "key")
-        elif name == mv["cost"]:
+        elif name == inner["cost"]:
             okv = e == ("field", pair, "cost")
         else:
-            okv = e[0] in ("var", "field") and e != ("field", pair, "key") and not mentions(e, V(mv["hits"]))
+            okv = e[0] in ("var", "field") and e != ("field", pair, "key") and not mentions(e, V(inner["hits"]))
         rep.check(okv, "R07.4", fl, body, "value %s" % name, "%s takes its value from the same candidate" % name, "%s := %s is not taken from the compared candidate" % (name, show(e)),
                   loc=body.blocks[cbi]["stmts"][si]["sp"])
     # all four written together (same block)
@@ -808,7 +825,7 @@ def check_min_search(rep, fl, body, costs):
     rep.check(len(blocks) == 1 and len(mv["writes"]) >= 4, "R07.4", fl, body, "atomic update", "key, hits, index and cost of the minimum are updated together",
               "the four min_* variables are not updated together (%s)" % sorted(mv["writes"]))
     # min_hits initialised to i64::MAX at the top of every iteration
-    hl = body.name_local.get(mv["hits"])
+    hl = body.name_local.get(inner["hits"])
     inits = [norm(body.def_expr(dbi, dsi, True)) for dbi, dsi in body.defs.get(hl, []) if dbi not in region]
     rep.check(inits == [("const", 9223372036854775807, "i64")], "R07.4", fl, body, "min_hits init", "min_hits starts at i64::MAX for every selection",
               "min_hits initial value(s): %s" % [show(i) for i in inits])
@@ -847,9 +864,9 @@ def check_victim_pair(rep, fl, rule="R16.5"):
         okc = True
     elif c_e[0] == "var" and k_e[0] == "var":
         mv = min_vars(body)
-        if mv is not None and mv.get("key") == k_e[1] and mv.get("cost") == c_e[1]:
-            kb, ks, ke = mv["writes"][mv["key"]]
-            cb_, cs, ce_ = mv["writes"][mv["cost"]]
+        if mv is not None and is_role(mv, "key", k_e) and is_role(mv, "cost", c_e):
+            kb, ks, ke = mv["writes"][mv["inner"]["key"]]
+            cb_, cs, ce_ = mv["writes"][mv["inner"]["cost"]]
             # same guarded block, same candidate element
             okc = kb == cb_ and ke[0] == "field" and ce_[0] == "field" and ke[2] == "key" and ce_[2] == "cost" and ke[1] == ce_[1]
             if okc:
